@@ -16,8 +16,20 @@ def mk_key(k):
     return "a" if k[1] == "str" else 1.5
 
 
-def mk_val(v):
+_keep = []
+
+
+def mk_val(v, ffi=None):
     t = v[0]
+    if t == "cdata":                      # an array cdata of exactly len(data) bytes
+        data = bytes.fromhex(v[1])
+        if v[2] == "short" and len(data) % 2 == 0:
+            x = ffi.new("short[%d]" % (len(data) // 2))
+        else:
+            x = ffi.new("char[%d]" % len(data))
+        ffi.memmove(x, data, len(data))
+        _keep.append(x)
+        return x
     if t == "bytes":
         return bytes.fromhex(v[1])
     if t == "bytearray":
@@ -65,7 +77,7 @@ def run_hist(ffi, c):
                 r = buf[mk_key(op[1])]
                 out = ["bytes", r.hex()] if isinstance(r, bytes) else ["unknown", repr(r)]
             elif op[0] == "set":
-                buf[mk_key(op[1])] = mk_val(op[2])
+                buf[mk_key(op[1])] = mk_val(op[2], ffi)
                 out = ["done"]
             elif op[0] == "del":
                 del buf[mk_key(op[1])]
